@@ -263,7 +263,7 @@ def theory_check(true_atoms, false_atoms, budget=6.0, hubs=None):
                 continue
             groups.setdefault(tuple(h.key() for h in T), (T, []))[1].append((f, g))
         for T, fgs in sorted(groups.values(), key=lambda x: len(x[0])):
-            if _t.time() - t0 > 2 * budget:
+            if _t.time() - t0 > 2 * budget * smt.slack():
                 break
             res = cofactors_multi([f * g for f, g in fgs], T)
             for (f, g), r in zip(fgs, res):
@@ -278,7 +278,7 @@ def theory_check(true_atoms, false_atoms, budget=6.0, hubs=None):
                 return lemmas, certs
     _t1 = _tt.time()
     for f in F:
-        if _tt.time() - _t1 > 5 * budget:
+        if _tt.time() - _t1 > 5 * budget * smt.slack():
             break
         if attempt([f]):
             return lemmas, certs
